@@ -576,6 +576,8 @@ def _cmp(uf, a, b):
 
 def _cint(x, what):
     if isinstance(x, Sym):
+        if core.ctx().extra.get('stop_at_alloc'):
+            raise core.StopAtAlloc(what)
         return core.ctx().concretize(x.as_int(), what=what)
     return builtins.int(x)
 
